@@ -382,9 +382,11 @@ Get(q) ==
 \* Enabled where the reader model is defined for the written bytes (every byte it consumes exists).
 ReloadPath == "reload.c3d"
 Reload ==
-  LET b == WriterModel(obj)  r == ReaderModel(b) IN
-  /\ Mand(obj.grp) /\ ReaderDefined(b) /\ r.out \in {"ok", "ios_failure", "invalid_argument"}
-  /\ Done(IF r.out = "ok" THEN r.obj ELSE obj, [op |-> "Reload", path |-> ReloadPath], r.out, <<>>)
+  /\ Mand(obj.grp)
+  /\ IF ~Fits(obj) THEN Done(obj, [op |-> "Reload", path |-> ReloadPath], "range_error", <<>>)     \* refused before anything is written
+     ELSE LET b == WriterModel(obj)  r == ReaderModel(b) IN
+          /\ ReaderDefined(b) /\ r.out \in {"ok", "ios_failure", "invalid_argument"}
+          /\ Done(IF r.out = "ok" THEN r.obj ELSE obj, [op |-> "Reload", path |-> ReloadPath], r.out, <<>>)
   /\ UNCHANGED callers
 
 \* constructing an object from a given file (C02): the object becomes ReaderModel(bytes)
@@ -498,7 +500,7 @@ SaveIdempotent ==
         /\ WriterModel(r2.obj) = b2                                 \* and the next save is byte-identical
 \* the three I/O invariants with the file model evaluated once per state (TLC does not share work between invariants)
 IOInv ==
-  (Mand(obj.grp) /\ ~KF_GapFramesOnDisk(obj)) =>
+  (Mand(obj.grp) /\ Fits(obj) /\ ~KF_GapFramesOnDisk(obj)) =>
      LET b1 == WriterModel(obj)  r1 == ReaderModel(b1)
          c01 == r1.out = "ok" /\ r1.end = Len(b1) /\ Content(r1.obj) = Content(obj)
          c03 == SelfConsistentKF(b1, obj)
